@@ -75,6 +75,7 @@ MODEL = [
     (r"^tempfile::(NamedTempFile::<F>::(keep|into_temp_path|into_parts|into_file)|TempPath::keep|TempDir::(keep|into_path))$",
      "TempEscape", M, {"handle": 0}),
     (r"^memmap2::(MmapMut::map_mut|MmapOptions::map_mut|MmapMut::map_anon)$", "Mmap", False, {"handle": 0}),
+    (r"^memmap2::(Mmap::map|MmapOptions::map|MmapOptions::map_copy_read_only)$", "MmapRead", False, {"handle": -1}),
     (r"^memmap2::MmapMut::(flush|flush_async|flush_range|flush_async_range)$", "MmapFlush", False, {"handle": 0}),
     (r"^libc::(posix_fallocate64|posix_fallocate|fallocate|fallocate64|ftruncate|ftruncate64)$", "Fallocate", M, {"handle": 0, "len": 2}),
     (r"^std::env::(temp_dir|current_dir|home_dir)$", "EnvPath", False, {}),
@@ -96,10 +97,21 @@ PURE = re.compile(
     r"std::os::(fd|unix::io)::\w+::\w+|std::os::unix::fs::(MetadataExt|PermissionsExt|OpenOptionsExt|DirBuilderExt|FileTypeExt)::\w+|"
     r"tempfile::NamedTempFile::<F>::(as_file|as_file_mut|path|reopen)|tempfile::TempPath::\w+|tempfile::PersistError::\w+|"
     r"walkdir::(DirEntry::\w+|Error::\w+|WalkDir::(min_depth|max_depth|follow_links|sort_by|into_iter|contents_first|same_file_system))|"
-    r"memmap2::MmapMut::(len|is_empty|as_ptr|as_mut_ptr)|"
+    r"memmap2::MmapMut::(len|is_empty|as_ptr|as_mut_ptr)|memmap2::Mmap::(len|is_empty|as_ptr)|memmap2::MmapOptions::(new|len|offset)|"
     r"std::env::(var|var_os|args)|"
     r"libc::\w+_t)$")
 FS_CRATES = re.compile(r"^(std::fs::|std::os::unix::fs::|std::os::windows::fs::|tempfile::|reflink_copy::|memmap2::|walkdir::|libc::|fs_extra::|std::env::)")
+
+
+def _is_cycle(c):
+    """A provenance class that bottoms out in the resolver's cycle marker (a loop-carried self reference)."""
+    if not isinstance(c, tuple):
+        return False
+    if c[:1] == ("Unknown",) and "cycle" in str(c):
+        return True
+    if c and c[0] in ("Call",) and "cycle" in str(c) and "Unknown" in str(c):
+        return True
+    return False
 
 
 class Effect:
@@ -290,6 +302,10 @@ class Inventory:
             return ("Const", t[1])
         if k == "alt":
             cs = [self.classify(x, depth + 1) for x in t[1]]
+            # a loop-carried alternative that only feeds the value back into itself adds nothing
+            acyc = [c for c in cs if not _is_cycle(c)]
+            if acyc and len(acyc) < len(cs):
+                cs = acyc
             if all(c == cs[0] for c in cs):
                 return cs[0]
             return ("Alt", tuple(cs))
@@ -310,6 +326,10 @@ class Inventory:
             np = norm_callee(rp)
             args = t[2]
             path = t[3]
+            if np in ("tempfile::NamedTempFile::<F>::persist", "tempfile::NamedTempFile::<F>::persist_noclobber") and \
+                    tuple(path)[:2] == (("v", "Err"), ("f", "0")) and any(e[:2] == ("f", "file") for e in path):
+                # PersistError.file: a failed persist hands the very same temp file back
+                return self.classify(args[0], depth + 1)
             if R.is_content_path(rp) and len(args) >= 2:
                 return ("Content", self.classify(args[0], depth + 1), args[1])
             if R.is_bucket_path(rp) and len(args) >= 2:
